@@ -147,7 +147,13 @@ func Configs(n *e1.Node) []string {
 		if !strings.HasSuffix(x, "\n") {
 			x += "\n"
 		}
-		return []string{"a = " + x + "b = 1\n", "blk \"l\" {\n    a   =   " + x + "  b = 2 # c\n}\n"}
+		out := []string{"a = " + x + "b = 1\n", "blk \"l\" {\n    a   =   " + x + "  b = 2 # c\n}\n"}
+		// the heredoc on a line of its own inside brackets, newlines inside its template sequences
+		// (mode 2) and after the item separators of constructors inside them (mode 8)
+		for _, mode := range []int{2, 8} {
+			out = append(out, "a = "+e1.Render(n, e1.Layout{Mode: mode})+"\nb = 1\n")
+		}
+		return out
 	}
 	if Brief {
 		return []string{"a = " + e1.Render(n, e1.Layout{Mode: 0}) + "\n",
